@@ -48,7 +48,7 @@ func zz34Digest(algo string, data []byte, code uint64, size, length int) (mh.Mul
 	if length < 0 {
 		length = size
 	}
-	if verifrt.Param("MHL_ALL", 0) == 0 {
+	if verifrt.Param("MHL_ALL", 1) == 0 {
 		// every truncation length is a separate path: sample both ends of the range unless MHL_ALL
 		verifrt.Assume(length <= 2 || length >= size-1)
 	}
@@ -253,6 +253,10 @@ func zz34SameWantlist(tag string, a, b BitSwapMessage) {
 	}
 }
 
+// HarnessC34RoundTripBlocks: the same harness with parameters that put the weight on blocks and presences
+// (two blocks of different prefixes / digest lengths, few wantlist operations).
+func HarnessC34RoundTripBlocks() { HarnessC34RoundTrip() }
+
 func HarnessC34RoundTrip() {
 	pool := zz34Pool()
 	npool := verifrt.Param("POOL", 2)
@@ -326,9 +330,15 @@ func HarnessC34RoundTrip() {
 	nb := verifrt.NondetRange("nb", 0, verifrt.Param("NB", 1))
 	blks := make([]blocks.Block, 0, nb)
 	for k := 0; k < nb; k++ {
-		data := verifrt.NondetBytes("b_data", verifrt.NondetRange("b_len", 1, 2))
+		blen := 1 + k%2
+		if verifrt.Param("BLENFORK", 1) == 1 {
+			blen = verifrt.NondetRange("b_len", 1, 2)
+		}
+		data := verifrt.NondetBytes("b_data", blen)
 		var pref cid.Prefix
-		switch verifrt.NondetRange("b_shape", 0, 3) {
+		switch verifrt.NondetRange("b_shape", 0, 4) {
+		case 4: // same version / codec / hash function as shape 0, truncated digest
+			pref = cid.Prefix{Version: 1, Codec: cid.Raw, MhType: mh.SHA2_256, MhLength: 20}
 		case 0:
 			pref = cid.Prefix{Version: 1, Codec: cid.Raw, MhType: mh.SHA2_256, MhLength: 32}
 		case 1:
